@@ -4,8 +4,8 @@ from gen_util import *
 from srp_cases import *
 import pyref
 
-MODULES = ["WowSrp.Props.C03", "WowSrp.Props.Source.C03", "WowSrp.Props.Source.StripRule", "WowSrp.Props.Source.Formulas", "WowSrp.Props.Source.Glue.Srp", "WowSrp.Props.Source.Structural.C03", "WowSrp.Props.Source.Shape.C03", "WowSrp.Props.Source.HashesSrp", "WowSrp.Props.Source.Interleave", "WowSrp.Props.Source.ApiSetup", "WowSrp.Props.Source.ApiClient"]
-THEOREMS = ["C03_constants", "C03_verifier", "C03_server_public_key", "C03_server_public_key_accepted", "C03_client_public_key", "C03_server_S", "C03_client_S", "C03_client_S_range", "C03_interleave", "C03_strip_rule", "C03_session_key", "C03_M1_client", "C03_M1_server", "C03_M1_server_spec", "C03_xor_hash_real", "C03_M2", "C03_api_verifier", "C03_api_server_public_key", "C03_api_client", "C03_api_server", "C03_api_client_key", "C03_api", "C03_source_layout_x", "C03_source_layout_u", "C03_source_layout_M2", "C03_source_layout_xor", "C03_hA_of_prime", "C03_hA_iff_of_prime", "C03_api_client_prime", "C03_api_client_prime_small_g", "C03_api_client_prime_dvd_panics", "C03_translated_strip_rule", "C03_translated_verifier", "C03_translated_server_public_key", "C03_translated_server_S", "C03_translated_client_public_key", "C03_translated_client_S", "C03_source_glue_srp", "C03_source_structural_impls", "C03_source_shapes", "C03_translated_calculate_x", "C03_translated_calculate_u", "C03_translated_server_proof", "C03_translated_client_proof", "C03_translated_xor_hash", "C03_translated_xor_hash_needs_digest_length", "C03_translated_client_proof_custom", "C03_translated_interleaved", "C03_translated_calculate_session_key", "C03_translated_with_specific_private_key", "C03_translated_with_specific_salt", "C03_translated_client_new", "C03_translated_setup_signatures", "C03_translated_client_signatures"]
+MODULES = ["WowSrp.Props.C03", "WowSrp.Props.Source.C03", "WowSrp.Props.Source.StripRule", "WowSrp.Props.Source.Formulas", "WowSrp.Props.Source.Glue.Srp", "WowSrp.Props.Source.Structural.C03", "WowSrp.Props.Source.Shape.C03", "WowSrp.Props.Source.HashesSrp", "WowSrp.Props.Source.Interleave", "WowSrp.Props.Source.ApiSetup", "WowSrp.Props.Source.ApiClient", "WowSrp.Props.Source.ApiLinkedClient"]
+THEOREMS = ["C03_constants", "C03_verifier", "C03_server_public_key", "C03_server_public_key_accepted", "C03_client_public_key", "C03_server_S", "C03_client_S", "C03_client_S_range", "C03_interleave", "C03_strip_rule", "C03_session_key", "C03_M1_client", "C03_M1_server", "C03_M1_server_spec", "C03_xor_hash_real", "C03_M2", "C03_api_verifier", "C03_api_server_public_key", "C03_api_client", "C03_api_server", "C03_api_client_key", "C03_api", "C03_source_layout_x", "C03_source_layout_u", "C03_source_layout_M2", "C03_source_layout_xor", "C03_hA_of_prime", "C03_hA_iff_of_prime", "C03_api_client_prime", "C03_api_client_prime_small_g", "C03_api_client_prime_dvd_panics", "C03_translated_strip_rule", "C03_translated_verifier", "C03_translated_server_public_key", "C03_translated_server_S", "C03_translated_client_public_key", "C03_translated_client_S", "C03_source_glue_srp", "C03_source_structural_impls", "C03_source_shapes", "C03_translated_calculate_x", "C03_translated_calculate_u", "C03_translated_server_proof", "C03_translated_client_proof", "C03_translated_xor_hash", "C03_translated_xor_hash_needs_digest_length", "C03_translated_client_proof_custom", "C03_translated_interleaved", "C03_translated_calculate_session_key", "C03_translated_with_specific_private_key", "C03_translated_with_specific_salt", "C03_translated_client_new", "C03_translated_setup_signatures", "C03_translated_client_signatures", "C03_linked_client_new"]
 RULE = ("every value leaving the public API (verifier, B, A, M1, M2, K on both sides) recomputed independently in Python from the "
         "injected salt/a/b: full exchanges; registration; server public key; client under announced groups (generators 2..255 x primes "
         "of 2, 3, 8, 31, 32 bytes incl. top bit set and the built-in one), where small primes make low-order-zero classes of the client's "
